@@ -36,12 +36,14 @@ pub struct RunCfg {
     pub limit: Option<usize>,
     pub strat: Strat,
     pub incl: bool,
+    /// order in which the `StreamOpts` builder methods are called (a permutation index 0..6)
+    pub ord: u8,
 }
 
 impl RunCfg {
     pub fn line(&self, r: usize) -> String {
         format!(
-            "run {} api={} dir={} limit={} strat={} incl={}",
+            "run {} api={} dir={} limit={} strat={} incl={} ord={}",
             r,
             self.api,
             if self.rev { "rev" } else { "fwd" },
@@ -52,7 +54,8 @@ impl RunCfg {
                 Strat::Finish => "finish".to_string(),
                 Strat::PollN(k) => format!("polln:{}", k),
             },
-            if self.incl { 1 } else { 0 }
+            if self.incl { 1 } else { 0 },
+            self.ord
         )
     }
     pub fn parse(line: &str) -> Option<(usize, RunCfg)> {
@@ -61,7 +64,7 @@ impl RunCfg {
             return None;
         }
         let r = t[1].parse().ok()?;
-        let mut c = RunCfg { api: String::new(), rev: false, limit: None, strat: Strat::Non, incl: true };
+        let mut c = RunCfg { api: String::new(), rev: false, limit: None, strat: Strat::Non, incl: true, ord: 0 };
         for kv in &t[2..] {
             let (k, v) = kv.split_once('=')?;
             match k {
@@ -77,6 +80,7 @@ impl RunCfg {
                     }
                 }
                 "incl" => c.incl = v == "1",
+                "ord" => c.ord = v.parse().unwrap_or(0),
                 _ => {}
             }
         }
@@ -266,11 +270,10 @@ pub enum GraphRef<'a> {
 
 fn mk_opts<'a>(cfg: &RunCfg, sh: &Rc<Shared>, run: usize) -> StreamOpts<'a, 'a> {
     let mut opts = StreamOpts::new();
-    if cfg.rev {
-        opts = opts.rev();
-    }
+    // the three builder methods, called in the order given by `cfg.ord` (they must commute)
+    const PERMS: [[u8; 3]; 6] = [[0, 1, 2], [0, 2, 1], [1, 0, 2], [1, 2, 0], [2, 0, 1], [2, 1, 0]];
     #[cfg(feature = "intr")]
-    {
+    let mut state = {
         use interruptible::InterruptibilityState;
         let (tx, rx) = tokio::sync::mpsc::channel::<interruptible::InterruptSignal>(16);
         let state = match cfg.strat {
@@ -279,12 +282,33 @@ fn mk_opts<'a>(cfg: &RunCfg, sh: &Rc<Shared>, run: usize) -> StreamOpts<'a, 'a> 
             Strat::Finish => InterruptibilityState::new_finish_current(rx.into()),
             Strat::PollN(k) => InterruptibilityState::new_poll_next_n(rx.into(), k),
         };
-        opts = opts.interruptibility_state(state).interrupted_next_item_include(cfg.incl);
         let mut v = sh.intr_tx.borrow_mut();
         while v.len() <= run {
             v.push(None);
         }
         v[run] = Some(tx);
+        Some(state)
+    };
+    for step in PERMS[(cfg.ord % 6) as usize] {
+        match step {
+            0 => {
+                if cfg.rev {
+                    opts = opts.rev();
+                }
+            }
+            1 => {
+                #[cfg(feature = "intr")]
+                if let Some(st) = state.take() {
+                    opts = opts.interruptibility_state(st);
+                }
+            }
+            _ => {
+                #[cfg(feature = "intr")]
+                {
+                    opts = opts.interrupted_next_item_include(cfg.incl);
+                }
+            }
+        }
     }
     #[cfg(not(feature = "intr"))]
     {
